@@ -81,6 +81,13 @@ func checkJSONLine(line []byte, sp *evSpec, structureOnly bool, truncated bool) 
 			}
 			continue
 		}
+		if i == 0 {
+			// the level member: its name, in whatever letter case the layout chooses
+			if g, ok := obj.Vals[0].(string); !ok || obj.Keys[0] != "level" || !strings.EqualFold(g, sp.levelName) {
+				return obj, fmt.Sprintf("level member is %q=%v, expected the name %q", obj.Keys[0], obj.Vals[0], sp.levelName), "header"
+			}
+			continue
+		}
 		wantKey := string(expectedDecode(nil, m.key))
 		if obj.Keys[i] != wantKey {
 			cls := "member-order"
